@@ -32,9 +32,10 @@ CHECKS = {
             "Theorems over all forests with plain names: the escape table read from the source is exactly the four specials; escaped "
             "strings contain no raw < > quote and only the four entities; an independent strict reader recovers from write(forest) exactly "
             "the forest's events (balanced tags, self-closed void elements, double-quoted attribute values decoded to the originals); "
-            "substituting strings changes no skeleton. The model writer is compared in Coq with HtmlWriter's actual output, which is also lexed by the Coq reader.",
-            BASE_NOTE + "Substitution through derived strings end-to-end is tested, not proved.",
-            "DESIGN.md §5 C02"),
+            "substituting strings changes no skeleton; (conversion level, C02_names_from_maps) for EVERY document and options, every tag of the forest convert returns is a style-map tag verbatim or a tag the "
+            "converter builds - name among 21 literals, attribute names among 8 literals plus the image converter's on img - so document strings occur only as text and attribute values. The model writer is compared in Coq with HtmlWriter's actual output, which is also lexed by the Coq reader.",
+            BASE_NOTE + "That the VALUES derived from several strings (id_prefix ++ name, '#' ++ ...) stay distinct for distinct originals end-to-end is tested (substitution stream), not proved.",
+            "DESIGN.md §5 C02, §15"),
     "C07": ("proof",
             "Coq proof of totality of the style-map reader and of a polynomial bound on the regex backtracking cost model + correspondence + timing ladder",
             "Theorems: every newline-free line tokenises (catch-all, no empty match), the parser never reads past END nor runs out of fuel, so every "
@@ -91,8 +92,9 @@ CHECKS = {
             "Coq proofs of toggle reading and of the run-wrapper equation + end-to-end correspondence + per-run wrapper oracle over all spellings",
             "Theorems: a toggle is on iff present with w:val not false/0; underline/highlight rules; a run is its children wrapped in exactly the paths of the properties that are on "
             "(run style outermost ... highlight innermost), defaults strong/em/s, nothing for unmapped underline/caps/small caps/highlight. Oracle: inline ancestors of each run's text.",
-            BASE_NOTE + "'Formatting never extends over another run' rests on C04's leaf-chain theorem plus this equation; not restated as one theorem.",
-            "DESIGN.md §5 C11"),
+            BASE_NOTE + "C11_formatting_is_local states 'formatting never extends over another run' as one theorem for visitor -> strip_empty -> collapse over any list of text runs "
+            "(style maps without :separator): every text leaf of the output sits under a chain compatible, level by level and of the same length, with the wrappers of its own run.",
+            "DESIGN.md §5 C11, §15"),
     "C13": ("proof",
             "Coq proofs of name/DOM/reader invariances over tables regenerated from source + metamorphic end-to-end suite over all listed rewrites",
             "Theorems: names are (URI, local) so prefixes cannot matter; Strict and Transitional URIs map to the same names; comments, PIs, xmlns attributes are dropped, CDATA is text, split text concatenates; "
